@@ -25,6 +25,7 @@ import (
 	"regexp"
 	"runtime"
 	"runtime/debug"
+	"runtime/metrics"
 	"sort"
 	"strconv"
 	"strings"
@@ -686,6 +687,7 @@ type c10Panic struct {
 	Key   string `json:"key"`
 	Zeno  string `json:"zeno_frame"`
 	Third string `json:"panicking_package"`
+	Site  string `json:"panicking_function"` // innermost non-runtime function (sub-class inside a key, evidence only)
 	Value string `json:"value"`
 	Stack string `json:"stack"`
 }
@@ -741,6 +743,7 @@ func c10Classify(v any, stack []byte) *c10Panic {
 		harness := strings.Contains(fr.file, "zz_verif_")
 		if p.Third == "" && !harness {
 			p.Third = pkg
+			p.Site = pkg[strings.LastIndexByte(pkg, '/')+1:] + "." + c10ClosureRe.ReplaceAllString(name, "")
 		}
 		if strings.HasPrefix(pkg, "github.com/internetarchive/Zeno/") && !harness && !strings.Contains(pkg, "/verif") {
 			p.Zeno = pkg[strings.LastIndexByte(pkg, '/')+1:] + "." + c10ClosureRe.ReplaceAllString(name, "")
@@ -781,28 +784,50 @@ func c10Guarded(c c10Case) (r c10Result) {
 	return r
 }
 
-// c10Exec runs one case under the watchdog.
-func c10Exec(c c10Case, budget time.Duration) (r c10Result, timedOut bool) {
+// c10HeapLimit: live heap a single case (input <= 256 KiB) may reach before it is declared a memory blow-up (the
+// crawler would be killed by the kernel long before every worker does this at once).
+const c10HeapLimit = 2 << 30
+
+var c10HeapSample = []metrics.Sample{{Name: "/memory/classes/heap/objects:bytes"}}
+
+func c10HeapBytes() uint64 {
+	metrics.Read(c10HeapSample)
+	return c10HeapSample[0].Value.Uint64()
+}
+
+// c10Exec runs one case under the watchdog (deadline + heap ceiling). over = "" | "time" | "memory".
+func c10Exec(c c10Case, budget time.Duration) (r c10Result, over string) {
 	ch := make(chan c10Result, 1)
 	go func() { ch <- c10Guarded(c) }()
 	timer := time.NewTimer(budget)
 	defer timer.Stop()
-	select {
-	case r = <-ch:
-		return r, false
-	case <-timer.C:
-		return r, true
+	tick := time.NewTicker(100 * time.Millisecond)
+	defer tick.Stop()
+	for {
+		select {
+		case r = <-ch:
+			return r, ""
+		case <-timer.C:
+			return r, "time"
+		case <-tick.C:
+			if c10HeapBytes() > c10HeapLimit {
+				return r, "memory"
+			}
+		}
 	}
 }
 
-// c10Budget: 10 s for inputs <= 64 KiB, proportionally more above; VERIF_C10_BUDGET_MS overrides the base (tests of the harness).
+// c10Budget: 10 s for inputs <= 64 KiB; above that the allowance grows with the square of the size, because honest
+// parsers are quadratic in nesting depth (x/net/html scans its open-element stack per tag: 12 000 nested <div> = 2 s).
+// VERIF_C10_BUDGET_MS overrides the base (strict known-finding tests, tests of the harness itself).
 func c10Budget(n int) time.Duration {
 	base := 10 * time.Second
 	if ms, err := strconv.Atoi(os.Getenv("VERIF_C10_BUDGET_MS")); err == nil && ms > 0 {
 		base = time.Duration(ms) * time.Millisecond
 	}
 	if n > 64<<10 {
-		return base * time.Duration((n+(64<<10)-1)/(64<<10))
+		k := (n + (64 << 10) - 1) / (64 << 10)
+		return base * time.Duration(k*k)
 	}
 	return base
 }
@@ -884,9 +909,11 @@ func propC10(t veriflib.TB, c c10Case) {
 	} else {
 		c10JournalBegin(facet, c)
 		budget := c10Budget(len(c.Body))
-		var timedOut bool
-		r, timedOut = c10Exec(c, budget)
-		if timedOut {
+		var over string
+		r, over = c10Exec(c, budget)
+		if over == "memory" {
+			c10HandleMemory(facet, c)
+		} else if over == "time" {
 			c10HandleTimeout(t, facet, c, budget)
 			return
 		}
@@ -896,7 +923,7 @@ func propC10(t veriflib.TB, c c10Case) {
 			t.Fatalf("HARNESS BUG (not a violation): %s\n%s", r.pn.Value, r.pn.Stack)
 		}
 		if veriflib.FindingOpen(r.pn.Key) {
-			veriflib.Excluded(facet, "panic of open finding "+r.pn.Key)
+			veriflib.Excluded(facet, "panic of open finding "+r.pn.Key+" at "+r.pn.Site)
 			veriflib.Record(facet, veriflib.JSON(c), len(r.o.Reached) > 0, c10Classes(c, r, "known-panic"), nil)
 			return
 		}
@@ -912,6 +939,20 @@ func propC10(t veriflib.TB, c c10Case) {
 		return map[string]any{"target": c.Target, "note": c.Note, "bytes": len(c.Body), "body_head": c10Preview(c.Body[:min(len(c.Body), 120)]), "url": c.URL, "ct": c.CT,
 			"status": c.Status, "mime": r.o.Mime, "reached": r.o.Reached, "dispatch": r.o.Dispatch, "errors": r.o.Errs, "links": r.o.Links, "accepted": r.o.Accepted, "rejected": r.o.Rejected}
 	})
+}
+
+// c10HandleMemory: the case is still allocating in a goroutine that cannot be stopped; report and leave.
+func c10HandleMemory(facet string, c c10Case) {
+	dump := make([]byte, 1<<20)
+	dump = dump[:runtime.Stack(dump, true)]
+	where := c10StuckFrames(string(dump))
+	msg := fmt.Sprintf("memory blow-up (key C10-oom-%s): a %d-byte input made the process hold more than %d MiB of live heap; allocating in: %s; target=%s url=%q ct=%q status=%d body=%s",
+		c10TestName(where), len(c.Body), c10HeapLimit>>20, where, c.Target, c.URL, c.CT, c.Status, c10Preview(c.Body))
+	veriflib.WriteFailure("C10", facet, c10Slim(c), map[string]any{"goroutines": string(dump)}, msg)
+	c10JournalEnd(facet)
+	veriflib.Flush()
+	fmt.Printf("--- FAIL: [C10/%s] %s\nFAIL\n", c.Target, msg)
+	os.Exit(1)
 }
 
 // c10HandleTimeout: a timeout counts only if it reproduces three times with a 10x budget.
@@ -932,18 +973,24 @@ func c10HandleTimeout(t veriflib.TB, facet string, c c10Case, budget time.Durati
 	}
 	fmt.Printf("C10 watchdog: %s case did not return within %v (%d bytes); confirming 3x with %v\n", facet, budget, len(c.Body), 10*budget)
 	var wg sync.WaitGroup
-	var hung atomic.Int64
+	var hung, mem atomic.Int64
 	for i := 0; i < 3; i++ {
 		wg.Add(1)
 		go func() {
 			defer wg.Done()
-			if _, to := c10Exec(c, 10*budget); to {
+			switch _, over := c10Exec(c, 10*budget); over {
+			case "time":
 				hung.Add(1)
+			case "memory":
+				mem.Add(1)
 			}
 		}()
 		time.Sleep(50 * time.Millisecond) // the globals are (re)written at the start of each run, not concurrently
 	}
 	wg.Wait()
+	if mem.Load() > 0 {
+		c10HandleMemory(facet, c)
+	}
 	if hung.Load() < 3 {
 		c10Inconclusive.Add(1)
 		veriflib.Excluded(facet, "timeout that did not reproduce 3x with 10x budget (inconclusive)")
